@@ -567,14 +567,8 @@ func c06R1(p *Prog, r *Report) {
 	// followed through single-definition locals to the call that produced it, so the key names
 	// the producing API rather than a variable.
 	assertReviewed := map[string]string{
-		"httpproxy.(readBufferedNetioConnReaderFrom).ReadFrom:recv.field:netio.Conn.(io.ReaderFrom)":                       "this wrapper type is only constructed (newReadBufferedNetioConn) when the inner connection implements io.ReaderFrom",
-		"conn.(*ListenConfig).ListenTCP:call (*github.com/database64128/tfo-go/v2.ListenConfig).Listen.(*net.TCPListener)": "tfo.ListenConfig.Listen on a tcp* network returns a *net.TCPListener",
-		"conn.(*ListenConfig).ListenUDP:call (*net.ListenConfig).ListenPacket.(*net.UDPConn)":                              "net.ListenConfig.ListenPacket on a udp* network returns a *net.UDPConn",
-		"conn.(*Dialer).DialTCP:call (*github.com/database64128/tfo-go/v2.Dialer).DialContext.(*net.TCPConn)":              "tfo.Dialer.DialContext on a tcp* network returns a *net.TCPConn",
-		"conn.(*Dialer).DialUDP:call (*net.Dialer).DialContext.(*net.UDPConn)":                                             "net.Dialer.DialContext on a udp* network returns a *net.UDPConn",
-		"conn.(*ListenConfig).ListenUDPMmsgConn:call (*net.ListenConfig).ListenPacket.(*net.UDPConn)":                      "net.ListenConfig.ListenPacket on a udp* network returns a *net.UDPConn",
-		"conn.(*Dialer).DialUDPMmsgConn:call (*net.Dialer).DialContext.(*net.UDPConn)":                                     "net.Dialer.DialContext on a udp* network returns a *net.UDPConn",
-		"service.(*TCPRelay).handleConn:call (*net.conn).RemoteAddr.(*net.TCPAddr)":                                        "RemoteAddr of a *net.TCPConn is always a *net.TCPAddr",
+		"httpproxy.(readBufferedNetioConnReaderFrom).ReadFrom:recv.field:netio.Conn.(io.ReaderFrom)": "this wrapper type is only constructed (newReadBufferedNetioConn) when the inner connection implements io.ReaderFrom",
+		"service.(*TCPRelay).handleConn:call (*net.conn).RemoteAddr.(*net.TCPAddr)":                  "RemoteAddr of a *net.TCPConn is always a *net.TCPAddr",
 	}
 	nTA := 0
 	for _, pkg := range p.All {
@@ -627,6 +621,17 @@ func c06R1(p *Prog, r *Report) {
 						if why, okp := c06TypedPool(p, ctx, ta); okp {
 							r.OK(rule, key, p.posStr(ta.Pos()), why)
 							return true
+						}
+						// library facts of the socket constructors, whichever function of package
+						// conn holds the call: the function is one of the package's UDP (TCP) entry
+						// points or their helpers (its name says so), which hand on their caller's
+						// udp* (tcp*) network name
+						if relPkg(pkg.PkgPath) == "conn" {
+							prodKey := roleOf(ctx, ctx.producer(ta.X)) + ".(" + asserted + ")"
+							if fact, isFact := c06SocketFacts[prodKey]; isFact && strings.Contains(strings.ToLower(baseFuncName(ctx)), fact.token) {
+								r.OK(rule, key, p.posStr(ta.Pos()), "library fact: "+fact.why)
+								return true
+							}
 						}
 						reason, okr := assertReviewed[key]
 						r.Check(okr, rule, key, p.posStr(ta.Pos()), "reviewed: "+reason, "a single-value type assertion panics when the dynamic type differs, and this one is not a reviewed site")
@@ -1697,4 +1702,18 @@ func c06LiftToCallers(p *Prog, pkg *packages.Package, ctx *FuncCtx, recv ast.Exp
 		return nil
 	}
 	return out
+}
+
+type c06SocketFact struct {
+	token string // what the enclosing function's name must contain
+	why   string
+}
+
+// c06SocketFacts: "<producing call>.(<asserted type>)" → the library fact that makes the
+// single-value assertion safe in package conn.
+var c06SocketFacts = map[string]c06SocketFact{
+	"call (*github.com/database64128/tfo-go/v2.ListenConfig).Listen.(*net.TCPListener)": {"tcp", "tfo.ListenConfig.Listen on a tcp* network returns a *net.TCPListener"},
+	"call (*net.ListenConfig).ListenPacket.(*net.UDPConn)":                              {"udp", "net.ListenConfig.ListenPacket on a udp* network returns a *net.UDPConn"},
+	"call (*github.com/database64128/tfo-go/v2.Dialer).DialContext.(*net.TCPConn)":      {"tcp", "tfo.Dialer.DialContext on a tcp* network returns a *net.TCPConn"},
+	"call (*net.Dialer).DialContext.(*net.UDPConn)":                                     {"udp", "net.Dialer.DialContext on a udp* network returns a *net.UDPConn"},
 }
